@@ -1,6 +1,7 @@
 package main
 
 import (
+	"go/types"
 	"fmt"
 	"go/constant"
 	"go/token"
@@ -541,4 +542,125 @@ func sameValueExpr(a, b ssa.Value, depth int) bool {
 		return (ok1 && ok2 && kx == ky) || x.Index == y.Index
 	}
 	return false
+}
+
+// ruleSpeedText (V-SPEEDFMT, C20): the text producers of the speed decorators print the speed they
+// are handed, unscaled, in the unit selected by the `unit` argument, and the rate wrapper appends "/s".
+func ruleSpeedText(w *World, r *Report, pfx string) {
+	rule := pfx + ".V-SPEEDFMT"
+	root := w.Func("decor.chooseSpeedProducer")
+	if root == nil {
+		// found by shape: the function returning func(float64) string under a type switch on its first parameter
+		for _, fn := range w.ModFns {
+			if fn.Pkg == w.Decor && fn.Parent() == nil && fn.Signature.Results().Len() == 1 && fn.Signature.Results().At(0).Type().String() == "func(float64) string" {
+				root = fn
+			}
+		}
+	}
+	if root == nil {
+		r.Unresolved("anchor", "speed text producer", "no function returning func(float64) string in decor")
+		return
+	}
+	bad := ""
+	units := map[string]bool{}
+	var closures []*ssa.Function
+	for _, f := range sortedFns(w.unit(root)) {
+		closures = append(closures, f.AnonFuncs...)
+	}
+	for _, clo := range closures {
+		if len(clo.Params) != 1 || clo.Signature.Results().Len() != 1 {
+			continue
+		}
+		speed := ssa.Value(clo.Params[0])
+		w.enumPaths(clo, pathOpts{}, func(p *Path) {
+			for _, ev := range p.Events {
+				c, ok := ev.In.(*ssa.Call)
+				if !ok || c.Call.StaticCallee() == nil || c.Call.StaticCallee().String() != "fmt.Sprintf" {
+					continue
+				}
+				var arg ssa.Value
+				nArgs := 0
+				for _, e2 := range p.Events {
+					if st, ok := e2.In.(*ssa.Store); ok {
+						if _, isIA := st.Addr.(*ssa.IndexAddr); isIA {
+							if _, isIface := st.Val.Type().Underlying().(*types.Interface); isIface {
+								arg = st.Val
+								nArgs++
+							}
+						}
+					}
+				}
+				if nArgs != 1 || arg == nil {
+					bad = "the speed text is not formatted from exactly one value"
+					return
+				}
+				// peel the rate wrapper and the unit conversion; what remains must be the parameter, rounding apart
+				v := arg
+				unit := "float64"
+				wrapped := false
+				for i := 0; i < 10; i++ {
+					switch x := v.(type) {
+					case *ssa.Call:
+						if sc := x.Call.StaticCallee(); sc != nil && len(x.Call.Args) == 1 {
+							if sc.Name() == "FmtAsSpeed" {
+								wrapped = true
+								v = x.Call.Args[0]
+								continue
+							}
+							if strings.HasPrefix(sc.String(), "math.") {
+								v = x.Call.Args[0]
+								continue
+							}
+						}
+					case *ssa.MakeInterface:
+						v = x.X
+						continue
+					case *ssa.ChangeInterface:
+						v = x.X
+						continue
+					case *ssa.Convert:
+						if tn := typeName(x.Type()); strings.HasPrefix(tn, "decor.SizeB") {
+							unit = tn
+						}
+						v = x.X
+						continue
+					case *ssa.ChangeType:
+						v = x.X
+						continue
+					}
+					break
+				}
+				if v != speed {
+					bad = "the speed text producer prints something other than the speed it is given (scaled or replaced: " + describeVal(Val{V: v}) + ")"
+					return
+				}
+				if unit != "float64" && !wrapped {
+					bad = "a sized speed is printed without the rate suffix wrapper"
+					return
+				}
+				units[unit] = true
+				if !w.closureUnderUnitCase(clo, map[string]string{"float64": "int64"}[unit]+map[string]string{"decor.SizeB1024": "decor.SizeB1024", "decor.SizeB1000": "decor.SizeB1000"}[unit]) {
+					bad = "a speed producer printing in " + unit + " is selected for a different unit argument"
+				}
+			}
+		})
+	}
+	if bad == "" && len(units) != 3 {
+		bad = fmt.Sprintf("speed producers exist for %d of the three units", len(units))
+	}
+	r.Check(bad == "", rule, "speed text producers", w.pos(root.Pos()), "print the given speed, unit by the unit argument", bad)
+	// the rate wrapper appends "/s"
+	if f := w.Func("decor.(*speedFormatter).Format"); f != nil {
+		okSuffix := false
+		for _, b := range f.Blocks {
+			for _, in := range b.Instrs {
+				for _, op := range in.Operands(nil) {
+					if k, ok := (*op).(*ssa.Const); ok && k.Value != nil && k.Value.Kind() == constant.String && constant.StringVal(k.Value) == "/s" {
+						okSuffix = true
+					}
+				}
+			}
+		}
+		r.Check(okSuffix, rule, "rate suffix", w.pos(f.Pos()), "per second", "the rate wrapper does not append \"/s\": the number printed is a per-second rate")
+	}
 }
